@@ -33,7 +33,7 @@ def preview_closure(ctx, r, root, bindings, label):
             msg = f"`gwf {label}` can reach code that {FORBIDDEN[e.kind]} ({e.detail} at {e.where})"
         elif e.kind == "FS_WRITE" and e.finfo.key not in STATE_WRITERS and not any(c in STATE_WRITERS for c in e.chain):
             msg = f"`gwf {label}` can reach a file write outside the two state-file saves ({e.detail} at {e.where})"
-        elif e.kind == "PROC" and e.finfo.key != "gwf.backends.utils:call":
+        elif e.kind == "PROC" and e.finfo.key != "gwf.backends.utils:call" and e.finfo.key not in ctx.index.runner_functions():
             msg = f"`gwf {label}` can start a process outside backends.utils.call ({e.detail} at {e.where})"
         if msg:
             n_bad += 1
